@@ -536,10 +536,11 @@ def toc_doc(r, style="fenced"):
         lv = r.randint(1, 6)
         t = words(r, 1, 2) + r.choice(["", "", " *em*", " `c`", " <b>", " [l](/u)", " &amp;"])
         k = r.random()
-        if k < 0.75:
+        if k < 0.6:
             parts.append("#" * lv + " " + t + "\n")
-        elif k < 0.85 and lv <= 2:
-            if r.random() < 0.4:
+        elif k < 0.85:
+            lv = r.choice([1, 2])
+            if r.random() < 0.5:
                 t = t + r.choice(["\n", "  \n", "\\\n"]) + words(r, 1, 3)      # a heading text that spans two source lines
             parts.append(t + "\n" + ("=" if lv == 1 else "-") * 3 + "\n")
         elif k < 0.93:
